@@ -1,50 +1,82 @@
-"""No blank line can appear inside a WebVTT cue: WebVTTWriter._group_cues_by_layout proved, for EVERY
-node list, with a loop invariant.  (A blank line ends a WebVTT cue, so text after it would be lost
-or taken for a new cue: the 'never end the cue' clause of C03.)
+"""WebVTTWriter._group_cues_by_layout proved for EVERY node list with a loop invariant (shared by C03
+and C11):
 
-The cue text being built is abstracted to a `Lines` value: is it empty, does it end with a line
-break, does it contain a blank line (two consecutive breaks, or a break at the very start).  Escaped
-node text, tags and '&nbsp;' are non-empty pieces without a line break (precondition of the domain:
-a text node holds one line - no newline character; A: the escaping functions add none)."""
+  lines (C03)  every cue text returned is non-empty and contains no blank line - a blank line ends a
+               WebVTT cue, so text after it would be lost or taken for a new cue;
+  tags  (C11)  for flat, balanced style spans whose nodes lie within one layout, the <i> / <u> / <b>
+               tags of every cue text are balanced and properly nested (a cue split at a layout change
+               takes the freshly opened tags along).
+
+The cue text being built is abstracted to a `Cue` value: is it empty / does it end with a line
+break / does it contain a blank line; the stack of open tags; how many opening tags stand at its very
+end.  Escaped node text and '&nbsp;' are non-empty pieces without a line break (domain: a text node
+holds one line; A: the escaping function adds no newline and no tag).  `pending_tags` is abstracted
+to the sequence of tags it holds; `s[:len(s) - len(pending_tags)]` is given meaning by the proof
+obligation that pending_tags IS the text of the trailing opening tags of s."""
 import z3
 
 from pycaption.base import CaptionNode
 from pycaption.webvtt import WebVTTWriter
 from pyvc import heap, sym
-from pyvc.heap import SymList, SymRef, declare, loop_rule, SEQ, INT, heap_array
+from pyvc.heap import SymList, declare, loop_rule, SEQ, INT, heap_array
 from pyvc.interp import SymObject
 from pyvc.sym import cur, Inapplicable
 
 EMPTY, ATSTART, INLINE = 0, 1, 2
+E0 = z3.Empty(SEQ)
+OPEN = {"<i>": 1, "<u>": 2, "<b>": 3}
+CLOSE = {"</i>": 1, "</u>": 2, "</b>": 3}
 
 
-class Lines(SymObject):
-    def __init__(self, state, blank):
-        self.state, self.blank = state, blank
+def tags_of(mask):
+    """the tags opened for a style mask (bit 0 italics, bit 1 underline, bit 2 bold), in the order the
+    writer opens them"""
+    one = lambda cond, code: z3.If(cond, z3.Unit(z3.IntVal(code)), E0)
+    return z3.Concat(one(mask % 2 == 1, 1), one((mask / 2) % 2 == 1, 2), one(mask / 4 == 1, 3))
+
+
+class Cue(SymObject):
+    def __init__(self, state, blank, stack, bad, ntrail, base):
+        self.state, self.blank, self.stack, self.bad, self.ntrail, self.base = state, blank, stack, bad, ntrail, base
 
     @staticmethod
     def of(x):
-        if isinstance(x, Lines):
+        if isinstance(x, Cue):
             return x
+        if isinstance(x, Pending):
+            n = z3.Length(x.tags)
+            return Cue(z3.If(n > 0, INLINE, EMPTY), z3.BoolVal(False), x.tags, z3.BoolVal(False), n, z3.IntVal(EMPTY))
         if isinstance(x, str):
-            if x == "":
-                return Lines(z3.IntVal(EMPTY), z3.BoolVal(False))
-            blank = x.startswith("\n") or "\n\n" in x
-            return Lines(z3.IntVal(ATSTART if x.endswith("\n") else INLINE), z3.BoolVal(blank))
+            c = Cue(z3.IntVal(EMPTY), z3.BoolVal(False), E0, z3.BoolVal(False), z3.IntVal(0), z3.IntVal(EMPTY))
+            return c if x == "" else c + x
         raise Inapplicable(f"cue text of {type(x).__name__}")
+
+    def _text(self):
+        return Cue(z3.IntVal(INLINE), self.blank, self.stack, self.bad, z3.IntVal(0), z3.IntVal(INLINE))
 
     def __add__(self, o):
         if isinstance(o, Piece):
-            return Lines(z3.IntVal(INLINE), self.blank)
+            return self._text()
         if isinstance(o, str):
-            cur_ = self
+            if o in OPEN:
+                base = z3.If(self.ntrail == 0, self.state, self.base)
+                return Cue(z3.IntVal(INLINE), self.blank, z3.Concat(self.stack, z3.Unit(z3.IntVal(OPEN[o]))), self.bad,
+                           self.ntrail + 1, base)
+            if o in CLOSE:
+                n = z3.Length(self.stack)
+                match = z3.And(n > 0, self.stack[n - 1] == CLOSE[o])
+                return Cue(z3.IntVal(INLINE), self.blank, z3.If(match, z3.SubSeq(self.stack, 0, n - 1), self.stack),
+                           z3.Or(self.bad, z3.Not(match)), z3.IntVal(0), z3.IntVal(INLINE))
+            if "<" in o:
+                raise Inapplicable(f"unknown markup {o!r} appended to a cue text")
+            c = self
             for ch in o:
                 if ch == "\n":
-                    cur_ = Lines(z3.IntVal(ATSTART), z3.Or(cur_.blank, cur_.state != INLINE))
+                    c = Cue(z3.IntVal(ATSTART), z3.Or(c.blank, c.state != INLINE), c.stack, c.bad, z3.IntVal(0), z3.IntVal(ATSTART))
                 else:
-                    cur_ = Lines(z3.IntVal(INLINE), cur_.blank)
-            return cur_
-        if isinstance(o, Lines):
+                    c = c._text()
+            return c
+        if isinstance(o, (Cue, Pending)):
             raise Inapplicable("concatenation of two cue texts")
         return NotImplemented
 
@@ -56,12 +88,85 @@ class Lines(SymObject):
     def __bool__(self):
         return cur().branch(self.state != EMPTY)
 
+    def length(self):
+        return AbsLen(self)
 
-class Piece(SymObject):
-    """a non-empty piece of text without a line break"""
+    def sym_getitem(self, interp, k):
+        """s[:len(s) - len(pending_tags)]: s without its trailing opening tags - PROVIDED pending_tags
+        is exactly their text, which is registered as a proof obligation"""
+        if not (isinstance(k, slice) and k.start is None and k.step is None and isinstance(k.stop, CutPoint)
+                and k.stop.whole is self):
+            raise Inapplicable("cue text sliced other than s[:len(s) - len(pending_tags)]")
+        pend = k.stop.pending
+        p = cur()
+        n = z3.Length(self.stack)
+        cond = z3.And(z3.Length(pend.tags) == self.ntrail, self.ntrail >= 0, self.ntrail <= n,
+                      pend.tags == z3.SubSeq(self.stack, n - self.ntrail, self.ntrail))
+        p.require_then_assume("pending_tags_are_the_trailing_opening_tags", cond, kind="side")
+        return Cue(self.base, self.blank, z3.SubSeq(self.stack, 0, n - self.ntrail), self.bad, z3.IntVal(0), self.base)
+
+
+class AbsLen:
+    def __init__(self, owner):
+        self.owner = owner
+
+    def __sub__(self, o):
+        if isinstance(o, AbsLen) and isinstance(o.owner, Pending) and isinstance(self.owner, Cue):
+            return CutPoint(self.owner, o.owner)
+        if isinstance(o, int) and o == 0:
+            return self
+        raise Inapplicable("arithmetic on the length of an abstract text")
+
+
+class CutPoint:
+    def __init__(self, whole, pending):
+        self.whole, self.pending = whole, pending
+
+
+class Pending(SymObject):
+    """pending_tags: the opening tags written since the last text or line break"""
+
+    def __init__(self, tags):
+        self.tags = tags
+
+    @staticmethod
+    def of(x):
+        if isinstance(x, Pending):
+            return x
+        if x == "":
+            return Pending(E0)
+        raise Inapplicable(f"pending tags of {x!r}")
+
+    def __add__(self, o):
+        if isinstance(o, str) and o in OPEN:
+            return Pending(z3.Concat(self.tags, z3.Unit(z3.IntVal(OPEN[o]))))
+        if isinstance(o, str) and o == "":
+            return self
+        if isinstance(o, Piece):
+            return Cue.of(self) + o
+        if isinstance(o, str):
+            return Cue.of(self) + o
+        return NotImplemented
 
     def __radd__(self, o):
-        return Lines.of(o) + self
+        if o == "":
+            return self
+        raise Inapplicable("text before pending tags")
+
+    def length(self):
+        return AbsLen(self)
+
+    def __bool__(self):
+        return cur().branch(z3.Length(self.tags) > 0)
+
+
+class Piece(SymObject):
+    """a non-empty piece of text without a line break or tag"""
+
+    def __radd__(self, o):
+        if isinstance(o, str) and o == "":
+            return Cue.of("") + self
+        return Cue.of(o) + self
 
     def __bool__(self):
         return True
@@ -89,15 +194,16 @@ class OptLayout(heap.SymId):
 
 
 class Groups(SymObject):
-    """the list of (cue text, layout) groups, abstracted to: was every group appended so far a
-    non-empty text without a blank line"""
+    """the list of (cue text, layout) groups, abstracted to: every group appended so far was a
+    non-empty text without a blank line (lines_ok) and with balanced, properly nested tags (tags_ok)"""
 
-    def __init__(self, ok):
-        self.ok = ok
+    def __init__(self, lines_ok, tags_ok):
+        self.lines_ok, self.tags_ok = lines_ok, tags_ok
 
     def append(self, item):
-        s = Lines.of(item[0])
-        self.ok = z3.And(self.ok, z3.Not(s.blank), s.state != EMPTY)
+        s = Cue.of(item[0])
+        self.lines_ok = z3.And(self.lines_ok, z3.Not(s.blank), s.state != EMPTY)
+        self.tags_ok = z3.And(self.tags_ok, z3.Not(s.bad), s.stack == E0)
 
     def sym_getattr(self, interp, name):
         if name == "append":
@@ -105,9 +211,8 @@ class Groups(SymObject):
         raise Inapplicable(f"list.{name} on the abstract group list")
 
 
-def cue_lines(c):
-    """_group_cues_by_layout for any node list whose text nodes hold one line each: every cue text
-    returned is non-empty and contains no blank line"""
+def cue_groups(c):
+    """see the module docstring"""
     heap.install(c.interp)
     saved, saved_kinds = dict(heap.SCHEMAS), dict(heap.CUSTOM_KINDS)
     p = cur()
@@ -115,31 +220,80 @@ def cue_lines(c):
         heap.CUSTOM_KINDS["optlayout"] = OptLayout
         declare(CaptionNode, type_="int", start="bool", content="id", layout_info="optlayout")
         nodes = SymList(z3.Const("nodes", SEQ), CaptionNode)
-        TY = heap_array(p, CaptionNode, "type_")
+        n = z3.Length(nodes.t)
+        TY, ST = heap_array(p, CaptionNode, "type_"), heap_array(p, CaptionNode, "start")
+        CONT, LAY = heap_array(p, CaptionNode, "content"), heap_array(p, CaptionNode, "layout_info")
+        TEXT, STYLE = CaptionNode.TEXT, CaptionNode.STYLE
         q = "pycaption.webvtt:WebVTTWriter._group_cues_by_layout"
         old_truth = c.interp.truth
-        c.interp.truth = lambda v: bool(v) if isinstance(v, (Lines, Piece, OptLayout)) else old_truth(v)
+        c.interp.truth = lambda v: bool(v) if isinstance(v, (Cue, Piece, OptLayout, Pending)) else old_truth(v)
+        old_len = c.interp.overrides[len]
+        c.interp.overrides[len] = lambda x: x.length() if isinstance(x, (Cue, Pending)) else old_len(x)
+        MASKOF = z3.Function("style_mask", INT, INT)          # the i/u/b flags a style node's content resolves to
+        FLAT, M, CUR = z3.Function("FLAT", INT, INT), z3.Function("OPENMASK", INT, INT), z3.Function("CURLAYOUT", INT, INT)
+        p.assume(z3.And(FLAT(0) == 0, CUR(0) == heap.NONE_REF))
+        node = lambda k: nodes.t[k]
+        is_start = lambda k: z3.And(TY[node(k)] == STYLE, ST[node(k)])
+        is_end = lambda k: z3.And(TY[node(k)] == STYLE, z3.Not(ST[node(k)]))
+
+        def defs(k):
+            x = node(k)
+            return z3.And(FLAT(k + 1) == z3.If(is_start(k), 1, z3.If(is_end(k), 0, FLAT(k))),
+                          M(k + 1) == z3.If(is_start(k), MASKOF(CONT[x]), M(k)),
+                          CUR(k + 1) == z3.If(TY[x] == TEXT, LAY[x], CUR(k)),
+                          MASKOF(CONT[x]) >= 0, MASKOF(CONT[x]) <= 7)
+
+        def dom(k):
+            """the statement's domain at node k: flat balanced spans, each within nodes of one layout"""
+            x = node(k)
+            return z3.Implies(z3.And(k >= 0, k < n), z3.And(
+                z3.Implies(is_start(k), FLAT(k) == 0),
+                z3.Implies(is_end(k), z3.And(FLAT(k) == 1, MASKOF(CONT[x]) == M(k))),
+                z3.Implies(z3.And(TY[x] == TEXT, FLAT(k) == 1),
+                           z3.Or(LAY[x] == CUR(k), z3.And(k > 0, is_start(k - 1))))))
 
         def inv(S):
-            s = Lines.of(S.local("s"))
+            i = S.i
+            S.p.assume(defs(i))
+            S.p.assume(z3.Implies(i > 0, defs(i - 1)))
+            S.p.assume(dom(i))
+            s = Cue.of(S.local("s"))
+            pend = Pending.of(S.local("pending_tags"))
             g = S.local("layout_groups")
-            g_ok = g.ok if isinstance(g, Groups) else z3.BoolVal(True)
-            prev_is_text = z3.And(S.i > 0, TY[nodes.t[S.i - 1]] == CaptionNode.TEXT)
-            return [("no_blank_line_so_far", z3.And(z3.Not(s.blank), g_ok)),
+            g_lines, g_tags = (g.lines_ok, g.tags_ok) if isinstance(g, Groups) else (z3.BoolVal(True), z3.BoolVal(True))
+            cl = S.local("current_layout")
+            cl_t = cl.t if isinstance(cl, OptLayout) else z3.IntVal(heap.NONE_REF)
+            prev_is_text = z3.And(i > 0, TY[node(i - 1)] == TEXT)
+            ns = z3.Length(s.stack)
+            return [("no_blank_line_so_far", z3.And(z3.Not(s.blank), g_lines)),
                     ("text_node_leaves_the_line_non_empty", z3.Implies(prev_is_text, s.state == INLINE)),
-                    ("state_in_range", z3.And(s.state >= 0, s.state <= 2))]
+                    ("states_in_range", z3.And(s.state >= 0, s.state <= 2, s.base >= 0, s.base <= 2, z3.Or(FLAT(i) == 0, FLAT(i) == 1))),
+                    ("pending_tags_are_the_trailing_tags", z3.And(z3.Length(pend.tags) == s.ntrail, s.ntrail >= 0, s.ntrail <= ns,
+                                                                  pend.tags == z3.SubSeq(s.stack, ns - s.ntrail, s.ntrail))),
+                    ("current_layout_is_that_of_the_last_text", cl_t == CUR(i)),
+                    ("text_before_the_trailing_tags_once_a_layout_is_set", z3.Implies(cl_t != heap.NONE_REF, z3.And(s.base != EMPTY, s.state != EMPTY))),
+                    ("open_tags_are_those_of_the_open_span", z3.And(z3.Not(s.bad), g_tags,
+                                                                    s.stack == z3.If(FLAT(i) == 1, tags_of(M(i)), E0))),
+                    ("right_after_a_span_start_all_its_tags_are_trailing", z3.Implies(z3.And(i > 0, is_start(i - 1)), s.ntrail == ns)),
+                    ("base_is_the_state_without_trailing_tags", z3.Implies(s.ntrail == 0, s.base == s.state))]
 
-        def havoc_s(p_, v):
-            return Lines(p_.fresh_int("state"), p_.fresh_bool("blank"))
+        def fresh_cue(p_, v):
+            return Cue(p_.fresh_int("state"), p_.fresh_bool("blank"), z3.Const(p_._name("stack"), SEQ), p_.fresh_bool("bad"),
+                       p_.fresh_int("ntrail"), p_.fresh_int("base"))
         c.interp.loop_hooks[(q, 1)] = loop_rule(
-            "nodes", inv, locals_={"s": ("custom", havoc_s), "layout_groups": ("custom", lambda p_, v: Groups(p_.fresh_bool("groups_ok"))),
+            "nodes", inv, locals_={"s": ("custom", fresh_cue),
+                                   "pending_tags": ("custom", lambda p_, v: Pending(z3.Const(p_._name("pending"), SEQ))),
+                                   "layout_groups": ("custom", lambda p_, v: Groups(p_.fresh_bool("lines_ok"), p_.fresh_bool("tags_ok"))),
                                    "current_layout": ("custom", lambda p_, v: OptLayout(p_.fresh_int("layout"))),
                                    "resulting_style": ("skip", None), "styles": ("skip", None), "style": ("skip", None),
                                    "tags": ("skip", None), "i": ("skip", None), "node": ("skip", None)})
 
         def h_style(interp, fn, args, kw):
-            k = cur().choose(4, "style")
-            return [{}, {"italics": True}, {"bold": True, "underline": False}, {"italics": True, "underline": True, "bold": True}][k]
+            content = args[1]
+            m = MASKOF(content.t)
+            k = cur().choose(8, "mask")
+            cur().assume_or_end(m == k)
+            return {"italics": bool(k & 1), "underline": bool(k & 2), "bold": bool(k & 4), "color": "red"}
         c.interp.contracts.update({
             "pycaption.webvtt:WebVTTWriter._calculate_resulting_style": h_style,
             "pycaption.webvtt:WebVTTWriter._encode_illegal_characters":
@@ -148,10 +302,11 @@ def cue_lines(c):
         w = c.new(WebVTTWriter)
         r = c.call(WebVTTWriter._group_cues_by_layout, w, nodes, None, compare=False)
         if isinstance(r, Groups):
-            c.ensure("every_cue_text_is_non_empty_and_has_no_blank_line", r.ok)
+            c.ensure("every_cue_text_is_non_empty_and_has_no_blank_line", r.lines_ok)
+            c.ensure("every_cue_text_has_balanced_properly_nested_tags", z3.Implies(FLAT(n) == 0, r.tags_ok))
         else:
-            c.ensure("every_cue_text_is_non_empty_and_has_no_blank_line",
-                     all(not z3.is_true(z3.simplify(Lines.of(t).blank)) for t, _ in r))
+            c.ensure("every_cue_text_is_non_empty_and_has_no_blank_line", len(r) == 0)
+            c.ensure("every_cue_text_has_balanced_properly_nested_tags", len(r) == 0)
     finally:
         heap.SCHEMAS.clear()
         heap.SCHEMAS.update(saved)
@@ -160,7 +315,9 @@ def cue_lines(c):
 
 
 def prove_cue_lines(ctx):
-    ctx.prove("webvtt.WebVTTWriter._group_cues_by_layout/no_blank_line", cue_lines,
-              functions=[WebVTTWriter._group_cues_by_layout], crosscheck=False)
-    ctx.assume("WebVTT cue lines: a text node holds one line (no newline character), as in the statement's domain; the "
-               "escaped text, tags and '&nbsp;' are non-empty pieces without a line break")
+    ctx.prove("webvtt.WebVTTWriter._group_cues_by_layout/cue_texts", cue_groups,
+              functions=[WebVTTWriter._group_cues_by_layout, WebVTTWriter._convert_style_to_text_tag], crosscheck=False)
+    ctx.assume("WebVTT cue texts: a text node holds one line (no newline character), as in the statement's domain; the "
+               "escaped text and '&nbsp;' are non-empty pieces without a line break or tag; style spans are flat and "
+               "balanced (end node resolves to the same i/u/b flags as its start node) and lie within nodes of one layout "
+               "(a layout change inside a span is only allowed at its first node)")
